@@ -117,6 +117,58 @@ func VerifC47Pred() {
 	}
 }
 
+// VerifC47PredText: a hop predicate given as text (ISD | ISD-AS | ISD-AS#IF | ISD-AS#IN,OUT,
+// parameter form 0..3) is parsed by HopPredicateFromString into the numbers it denotes, and matches
+// by numeric comparison of those numbers. Bound: ISD and interface numbers < 256 (1..3 digits),
+// AS in the decimal class (bgp=1) or the hex class (bgp=0).
+func VerifC47PredText() {
+	form := verif.Param("form")
+	r := c47Pred{isd: uint64(verif.NondetU8("isd"))}
+	s := strconv.FormatUint(r.isd, 10)
+	if form >= 1 {
+		var as addr.AS
+		if verif.Param("bgp") == 1 {
+			as = addr.AS(verif.NondetU32("as"))
+		} else {
+			as = addr.AS(verif.NondetU64("as"))
+			verif.Assume(as > addr.MaxBGPAS)
+			verif.Assume(as <= addr.MaxAS)
+		}
+		r.as = uint64(as)
+		s += "-" + as.String()
+	}
+	if form >= 2 {
+		r.if0 = uint64(verif.NondetU8("if0"))
+		s += "#" + strconv.FormatUint(r.if0, 10)
+	}
+	if form >= 3 {
+		r.if1 = uint64(verif.NondetU8("if1"))
+		r.two = true
+		s += "," + strconv.FormatUint(r.if1, 10)
+	}
+	// "IfID cannot be set when the AS is a wildcard" (documented restriction of the text form)
+	wellFormed := r.as != 0
+	if r.if0|r.if1 == 0 {
+		wellFormed = true
+	}
+	verif.Assume(wellFormed)
+	hp, err := HopPredicateFromString(s)
+	verif.Observe("parse", s, err == nil)
+	verif.Assert("predicate-text-accepted", err == nil)
+	nIf := 1
+	if r.two {
+		nIf = 2
+	}
+	verif.Assert("predicate-text-denotes-numbers", uint64(hp.ISD) == r.isd && uint64(hp.AS) == r.as &&
+		len(hp.IfIDs) == nIf && uint64(hp.IfIDs[0]) == r.if0 && (!r.two || uint64(hp.IfIDs[1]) == r.if1))
+	pi := snet.PathInterface{ID: iface.ID(verif.NondetU64("id")), IA: addr.IA(verif.NondetU64("ia"))}
+	ingress := verif.NondetBool("ingress")
+	got := hp.pathIFMatch(pi, ingress)
+	want := c47RefMatch(r, pi.IA, uint64(pi.ID), ingress)
+	verif.Assert("predicate-text-match", got == want)
+	verif.Cover("pred-text")
+}
+
 // c47Entry: one ACL entry in reference form.
 type c47Entry struct {
 	allow bool
